@@ -9,8 +9,8 @@ LEVEL = {
  "C01": "Proved for the model, all payload sizes, all u64 timestamps, all lengths: codec round trip; chunked reader with carry = one pass for every chunk size; create + any accepted appends + full read returns exactly the list (C01_roundtrip); across close/reopen for payload sizes >= 4 (C01_across_reopen). Payload sizes 0..3 across reopen: under the marker-word conditions of C04. Judged + correspondence on histories incl. sections at every offset around two consecutive 16 KiB boundaries.",
  "C02": "Proved in full for the model: every pair of bounds (incl/excl/unbounded, in gaps, at the 65534 edge), every series: read_all returns exactly the selected lines or nothing (C02_range_read, C02_seek: binary search, area classification, delta scans, reader).",
  "C03": "Proved in full for the model: accepted iff the accept rule holds; accepted appends extend the represented list, refused ones change no file and no state (C03_append_refines_spec).",
- "C04": "Proved for the model: close/reopen is the identity on the abstract state and on every file, any list/length/header, unconditional for payload sizes >= 4 (C04_reopen_p4: header parser, tail checks, backwards search of the last full timestamp, index validation, last-line read); payload sizes 0..3 under two explicit conditions on 0xFFFF words whose failure is the known finding D6 (witness lemma C04_open_intact_refuted). Series with cache levels: C09.",
- "C05": "Proved for the model, payload sizes >= 4: data file cut at ANY byte length, index absent or cut at ANY byte length independently, leftover .part: open succeeds and represents exactly the maximal prefix of completely written lines; repaired series takes appends and reads them back (C05_open_after_crash, C05_repair_then_append). Payload sizes 0..3: judged on enumerated cut lengths.",
+ "C04": "Proved for the model: close/reopen is the identity on the abstract state and on every file, any list/length/header, unconditional for payload sizes >= 4 (C04_reopen_p4: header parser, tail checks, backwards search of the last full timestamp, index validation, last-line read); every payload size under the single condition that no continuation slot of a section header looks like a marker line (C04_reopen_any_payload), whose failure is the known finding D6 (witness lemma C04_open_intact_refuted). Series with cache levels: C09.",
+ "C05": "Proved for the model, payload sizes >= 4: data file cut at ANY byte length, index absent or cut at ANY byte length independently, leftover .part: open succeeds and represents exactly the maximal prefix of completely written lines; repaired series takes appends and reads them back (C05_open_after_crash, C05_repair_then_append); the same for every payload size under the marker-word condition of C04 (C05_open_after_crash_any_payload).",
  "C06": "Proved for the model: index = function of the data; appends keep it; the chunked rebuild (with carry over any number of 16 KiB boundaries) finds exactly the sections of any well-formed series; validation on open accepts a prefix-of-history index only when it is the index of the data, otherwise rebuilds (C06_rebuild, C05_index_validation, C05_index_rebuild).",
  "C07": "Proved: reference decoder inverts reference encoder for the documented layouts; the model's five write/read layouts are the documented ones; constants regenerated from the source agree with the documented values. Open of hand-encoded non-canonical files and of the two assets: judged + correspondence.",
  "C08": "Proved in full for the model, one session: any number of cache levels, any bucket sizes >= 1, any list: after every accepted append every cache data file is its header + the reference encoding of the bucket means, its index the index of that (C08_session, C08_append, C08_files). After reopen: C09.",
